@@ -7,6 +7,13 @@ method (405 + Allow set) → consuming the Content-Type (415 when a body is sent
 Accept (415 for a bodiless POST/PUT/PATCH, else 406) → one of the remaining routes runs, once.
 "Best-matching" for CurlyRouter: greatest `Spec.claimScore` among the roots that CLAIM the URL —
 root tokens match the leading segments, variable segments non-empty, regex variables satisfied.
+"Best-matching" for RouterJSR311: `Spec.jsrBestService` — among the roots whose compiled expression
+matches the URL, the one with the maximal key (matchesCount, then literalCount, then
+nonDefaultCount; `Spec.JsrKey`), the FIRST registered one among equal maximal keys.  This is stated
+without sorting and without the router model (only the regex layer `Jsr.compile` / `Jsr.matchExpr`);
+`C02_jsr_best_service` proves that the model's `detectDispatcher` (collect, `sort.Sort(sort.Reverse)`,
+take `[0]`) computes exactly that, for all inputs — so `C02_classify_jsr_partial` is not circular on
+which WebService is chosen.
 
 Full statement:
   theorem C02_classify (hwf : cfg.wfTemplates) (hh : mediaHygiene cfg) :
@@ -62,6 +69,24 @@ theorem C02_classify_jsr_partial (cfg : Config) (hk : cfg.router = .jsr) (hwf : 
       (match route E cfg req with | .selected _ _ _ => 1 | _ => 0) = true :=
   Restful.C02_classify_jsr_partial E cfg hk hwf hroots hh req hn
 
+/-- RouterJSR311: WHICH WebService is chosen.  The model of `detectDispatcher` (jsr311.go:214:
+    collect the roots whose expression matches, `sort.Sort(sort.Reverse(…))`, take `[0]`) returns —
+    compile failure, "not found", or the service with the final match handed to the route stage —
+    exactly what the independent specification `Spec.jsrBestService` names: the first registered
+    among the matching services whose key (matchesCount, literalCount, nonDefaultCount) is maximal.
+    For all service lists and paths (the model's sort is insertion sort at every length). -/
+theorem C02_jsr_best_service (svcs : List Service) (path : Str) :
+    Jsr.detectDispatcher E svcs path = Spec.jsrBestService E svcs path :=
+  Jsr.detectDispatcher_eq_spec E svcs path
+
+/-- the fact about Go's insertion sort behind it: for a strict weak order, index 0 of the result
+    holds the FIRST element of the input that no element of the input is `less` than -/
+theorem C02_sort_head {α : Type} (less : α → α → Bool)
+    (htrans : ∀ a b c, less b a = false → less c b = false → less c a = false)
+    (hasym : ∀ a b, less a b = true → less b a = false) (l : List α) :
+    (Sort.insertionSort less l).head? = l.find? (fun x => l.all (fun y => !less y x)) :=
+  Sort.head?_insertionSort less htrans hasym l
+
 /-- CurlyRouter's score of a root IS the specification's claim, regular expressions of root
     variables included (the lemma that used to need `Spec.noRootRegex`) -/
 theorem C02_claimScore (cfg : Config) (hk : cfg.router = .curly) (hwf : cfg.wfTemplates = true)
@@ -80,6 +105,16 @@ and are audited with this property: -/
 -- also: Restful.C02_roots_witness
 -- also: Restful.C02_curly_roots_witness
 -- also: Restful.C02_curly_rootverb_witness
+
+/-! `Spec.jsrBestService` on concrete roots (Lemmas/JsrBest.lean): three matching roots with three
+different keys in all six registration orders (the root with most capture groups is named, although
+another has more literal characters); two matching roots, a non-matching one, none, a root that does
+not compile; two matching roots with EQUAL keys in both orders (the first registered is named, by the
+specification and by the model's sort alike): -/
+-- also: Restful.JsrBestExample.three_keys
+-- also: Restful.JsrBestExample.three_roots
+-- also: Restful.JsrBestExample.two_roots
+-- also: Restful.JsrBestExample.tie_first
 
 /-! ### non-vacuity (audit)
 
@@ -144,6 +179,71 @@ example :
     Spec.c02Holds Eany cfgJ post (.error 404 none) 0 = false ∧
     Spec.c02Holds Eany cfgJ post (.selected 0 1 []) 2 = false := by
   decide
+
+/-! #### RouterJSR311: the specified WebService, on whole tables -/
+
+/-- three nested literal roots, each with a catch-all route, registered as `/a/b/c`, `/a`, `/a/b` -/
+def nested : Config := { router := .jsr, services :=
+  [ { id := 0, root := "/a/b/c".toList, routes := [rd 10 "GET" "/{t:*}" [] []] },
+    { id := 1, root := "/a".toList, routes := [rd 11 "GET" "/{t:*}" [] []] },
+    { id := 2, root := "/a/b".toList, routes := [rd 12 "GET" "/{t:*}" [] []] } ] }
+
+def getABCD : Req := { method := "GET".toList, path := "/a/b/c/d".toList }
+
+/-- all three roots match `GET /a/b/c/d` with keys (2,3,0), (2,1,0), (2,2,0); the specification
+    names `/a/b/c` (id 0) and hands `/d` to its routes; the hypotheses of `C02_classify_jsr_partial`
+    hold; the predicate accepts "route 10 of service 0 ran once" and rejects what a router that
+    compares neighbours instead of the running best would do (route 12 of service 2: the last local
+    ascent in registration order), as well as the least specific root and a 404 -/
+example :
+    nested.wfTemplates = true ∧ Jsr.rootsRead nested = true ∧ Spec.mediaHygiene nested = true ∧
+    '\n' ∉ getABCD.path ∧
+    (nested.services.filterMap (Spec.jsrClaim Eany getABCD.path)).map (fun c => (c.1.id, c.2.2)) =
+      [(0, ⟨2, 3, 0⟩), (1, ⟨2, 1, 0⟩), (2, ⟨2, 2, 0⟩)] ∧
+    (Spec.jsrBestService Eany nested.services getABCD.path).map (Option.map (fun p => (p.1.id, p.2))) =
+      some (some (0, "/d".toList)) ∧
+    (Spec.bestServices Eany nested getABCD).map (·.id) = [0] ∧
+    route Eany nested getABCD = .selected 0 10 [("t".toList, "d".toList)] ∧
+    Spec.c02Holds Eany nested getABCD (.selected 0 10 [("t".toList, "d".toList)]) 1 = true ∧
+    Spec.c02Holds Eany nested getABCD (.selected 2 12 [("t".toList, "c/d".toList)]) 1 = false ∧
+    Spec.c02Holds Eany nested getABCD (.selected 1 11 [("t".toList, "b/c/d".toList)]) 1 = false ∧
+    Spec.c02Holds Eany nested getABCD (.error 404 none) 0 = false := by
+  decide
+
+example : Spec.c02Holds Eany nested getABCD (route Eany nested getABCD)
+    (match route Eany nested getABCD with | .selected _ _ _ => 1 | _ => 0) = true :=
+  C02_classify_jsr_partial Eany nested rfl (by decide) (by decide) (by decide) getABCD (by decide)
+
+/-- two roots with EQUAL keys (one variable, one literal character) that both match `GET /a/b`,
+    in both registration orders -/
+def tieXA : Config := { router := .jsr, services :=
+  [ { id := 0, root := "/{x}/b".toList, routes := [rd 20 "GET" "" [] []] },
+    { id := 1, root := "/a/{y}".toList, routes := [rd 21 "GET" "" [] []] } ] }
+def tieAX : Config := { router := .jsr, services :=
+  [ { id := 1, root := "/a/{y}".toList, routes := [rd 21 "GET" "" [] []] },
+    { id := 0, root := "/{x}/b".toList, routes := [rd 20 "GET" "" [] []] } ] }
+
+def getAB : Req := { method := "GET".toList, path := "/a/b".toList }
+
+/-- the tie: the FIRST registered of the two is the specified service, the router runs its route,
+    and the predicate rejects the other service's route -/
+example :
+    (tieXA.services.filterMap (Spec.jsrClaim Eany getAB.path)).map (fun c => (c.1.id, c.2.2)) =
+      [(0, ⟨3, 1, 1⟩), (1, ⟨3, 1, 1⟩)] ∧
+    (Spec.bestServices Eany tieXA getAB).map (·.id) = [0] ∧
+    (Spec.bestServices Eany tieAX getAB).map (·.id) = [1] ∧
+    route Eany tieXA getAB = .selected 0 20 [("x".toList, "a".toList)] ∧
+    route Eany tieAX getAB = .selected 1 21 [("y".toList, "b".toList)] ∧
+    Spec.c02Holds Eany tieXA getAB (.selected 0 20 [("x".toList, "a".toList)]) 1 = true ∧
+    Spec.c02Holds Eany tieXA getAB (.selected 1 21 [("y".toList, "b".toList)]) 1 = false ∧
+    Spec.c02Holds Eany tieAX getAB (.selected 1 21 [("y".toList, "b".toList)]) 1 = true ∧
+    Spec.c02Holds Eany tieAX getAB (.selected 0 20 [("x".toList, "a".toList)]) 1 = false := by
+  decide
+
+/-- `C02_jsr_best_service` on these tables -/
+example : Jsr.detectDispatcher Eany nested.services getABCD.path =
+    Spec.jsrBestService Eany nested.services getABCD.path :=
+  C02_jsr_best_service Eany nested.services getABCD.path
 
 end C02Example
 
